@@ -162,11 +162,23 @@ inductive ROp where
   | recv (seg : List Nat)
   | read
   | cancel (k : Nat)
+  | recvCancel (seg : List Nat)      -- bytes arrive and the pending read's context is cancelled at that instant
 
 def rstep (cls : List Nat → Kind) (s : RSt) : ROp → RSt
   | .recv seg => recv s seg
   | .read => (readCall cls s).1
   | .cancel k => if 10 ∈ s.pending.take k then s else cancel s k
+  | .recvCancel seg => (readCancelled cls (recv s seg)).1
+
+theorem inv_readCancelled (cls : List Nat → Kind) (s : RSt) (h : RInv cls s) : RInv cls (readCancelled cls s).1 := by
+  unfold readCancelled
+  cases ht : takeLine s.pending with
+  | none =>
+    simp only
+    apply inv_cancel cls s _ h
+    intro hm
+    exact takeLine_none _ ht (List.mem_of_mem_take hm)
+  | some lr => simpa using inv_read cls 1 s h
 
 theorem inv_reachable (cls : List Nat → Kind) (ops : List ROp) : RInv cls (ops.foldl (rstep cls) {}) := by
   have : ∀ (s : RSt), RInv cls s → RInv cls (ops.foldl (rstep cls) s) := by
@@ -183,6 +195,7 @@ theorem inv_reachable (cls : List Nat → Kind) (ops : List ROp) : RInv cls (ops
         by_cases hk : 10 ∈ s.pending.take k
         · simp [hk]; exact h
         · simp [hk]; exact inv_cancel cls s k h hk
+      | recvCancel seg => exact inv_readCancelled cls _ (inv_recv cls s seg h)
   exact this _ (inv_init cls)
 
 /-- **No byte is lost, duplicated or reordered.**  Whatever the segmentation, the reads and the
@@ -204,6 +217,20 @@ theorem read_lines_exact (cls : List Nat → Kind) (ops : List ROp) :
   refine ⟨⟨(splitLines (s.stash ++ s.pending)).1, ?_⟩, h.ret⟩
   rw [← h.bytes, List.append_assoc]
   exact splitLines_flatten _ _ h.lines
+
+/-- **a line that arrives while its read is being cancelled is not thrown away**: when the bytes that came in completed a
+known-method line, the cancelled call still returns that line (it has been taken out of the socket), and only that one -/
+theorem cancelled_read_keeps_completed_line (cls : List Nat → Kind) (s : RSt) (l rest : List Nat)
+    (ht : takeLine s.pending = some (l, rest)) (hk : cls (s.stash ++ l) = .known) :
+    (readCancelled cls s).2 = some (.msg (s.stash ++ l)) ∧ (readCancelled cls s).1.pending = rest ∧
+    (readCancelled cls s).1.taken = s.taken ++ [s.stash ++ l] := by
+  simp [readCancelled, ht, Model.Conn.read, hk]
+
+/-- and when no line is complete the cancelled call takes nothing: the bytes stay (stash ++ pending unchanged) -/
+theorem cancelled_read_takes_nothing (cls : List Nat → Kind) (s : RSt) (ht : takeLine s.pending = none) :
+    (readCancelled cls s).2 = none ∧ (readCancelled cls s).1.taken = s.taken ∧
+    (readCancelled cls s).1.stash ++ (readCancelled cls s).1.pending = s.stash ++ s.pending := by
+  simp [readCancelled, ht, cancel]
 
 /-- a `Read` call only blocks when no complete line is left: every complete line that has arrived
 is consumed by the reads that follow it -/
